@@ -81,6 +81,8 @@ func (vc *VC) step(fr *frame, st *State, instr ssa.Instruction) {
 		v := vc.valueOf(fr, in.X)
 		if xt.K == KUnit {
 			fr.env[in] = vc.box(Zero, xt)
+		} else if xt.K == KStruct {
+			fr.env[in] = vc.boxStruct(st, in.Name(), v, xt)
 		} else if !xt.single() {
 			vc.fail("boxing composite value of type %s", xt)
 		} else {
@@ -436,6 +438,28 @@ func (vc *VC) typeAssert(fr *frame, st *State, in *ssa.TypeAssert) Value {
 			ok = Ne(x, Zero)
 		}
 		val = x
+	} else if to.K == KStruct {
+		ok = Eq(vc.tagOf(x), vc.tagFor(to))
+		func() {
+			defer func() {
+				if r := recover(); r != nil {
+					if ee, isEval := r.(evalError); isEval {
+						vc.fail("%s", ee.msg)
+					}
+					panic(r)
+				}
+			}()
+			sv := vc.unboxStruct(st.heap, x, to)
+			for k, f := range sv.F {
+				s, _ := structOf(to.Go)
+				for i := 0; i < s.NumFields(); i++ {
+					if s.Field(i).Name() == k {
+						sv.F[k] = vc.wrap(f.(Term), FromGo(s.Field(i).Type()))
+					}
+				}
+			}
+			val = sv
+		}()
 	} else {
 		if !to.single() && to.K != KUnit {
 			vc.fail("type assertion to composite type %s", to)
@@ -452,7 +476,7 @@ func (vc *VC) typeAssert(fr *frame, st *State, in *ssa.TypeAssert) Value {
 	}
 	ok = vc.script.Define(in.Name()+":ok", ok)
 	if in.CommaOk {
-		if to.single() {
+		if to.single() && to.K != KStruct {
 			// the value component is the zero value when the assertion fails
 			z := vc.toTerm(vc.zeroValue(to))
 			val = vc.wrap(Ite(ok, vc.toTerm(val), z), to)
@@ -675,4 +699,29 @@ func (vc *VC) indexOp(fr *frame, st *State, in *ssa.Index) Value {
 	}
 	vc.fail("Index on %s unsupported", xt)
 	return nil
+}
+
+
+// boxStruct boxes a struct value into an interface value: an immutable box object whose payload is
+// stored in "box:<type>.<field>" components.
+func (vc *VC) boxStruct(st *State, hint string, v Value, t SType) Value {
+	sv, ok := v.(StructVal)
+	if !ok {
+		vc.fail("boxing non-struct value as %s", t)
+	}
+	r := vc.newRef(st, hint+":box")
+	s, _ := structOf(t.Go)
+	for i := 0; i < s.NumFields(); i++ {
+		f := s.Field(i)
+		ft := FromGo(f.Type())
+		if !ft.single() {
+			vc.fail("boxing struct %s with composite field %s", t, f.Name())
+		}
+		loc := Loc{"box:" + typeKey(t.Go) + "." + f.Name(), []Term{r}}
+		vc.readLoc(st.heap, loc, ft)
+		vc.writeCell(st, loc, vc.toTerm(sv.F[f.Name()]))
+	}
+	vc.script.Assume(Eq(vc.tagOf(r), vc.tagFor(t)))
+	vc.assumeStateAxioms(st) // definitional axioms over boxed payloads (cellof) for the new box
+	return r
 }
